@@ -307,6 +307,17 @@ def main_check(pid, hname, tier, seed, extra_evidence=None, pre_results=None):
                     known_hits.append((sig, c, cand))
                 else:
                     violations.append((sig, c, cand, path))
+            elif getattr(h, 'FLOAT_NUMERIC_IS_VIOLATION', False):
+                # numeric disagreement with the NumPy oracle on the REAL float backend (rtol/atol 1e-8 on inputs in [-2,2]) that the exact
+                # symbolic run cannot see: dtype promotion / casts (symbolic arrays have no NumPy dtype).  Reproduces by construction.
+                sig = finding_signature(h, c, cand)
+                cand = dict(cand, found_by='float-backend cross-run of the harness (numeric obligation; outside the solver-decided claim)',
+                            float_seed=seed + [x['id'] for x in fcases].index(c['id']))
+                path = write_replay(pid, hname, c, cand)
+                if any(e.get('signature') == sig for e in known):
+                    known_hits.append((sig, c, cand))
+                else:
+                    violations.append((sig, c, cand, path))
             else:
                 harness_errors.append({'case': c['id'], 'why': 'float cross-validation failed (numeric obligation) where symbolic run passed', 'cand': cand})
     finally:
